@@ -747,7 +747,9 @@ func compileAssignStmtLeft(context *funcContext, stmt *ast.AssignStmt) (int, []*
 				ac.ec.reg = reg
 				reg += compileExpr(context, reg, st.Object, ecnone(0))
 			} else {
-				compileExprWithKMVPropagation(context, st.Object, &reg, &ac.ec.reg)
+				// SETTABLE addresses the object through its register-only A field:
+				// a constant object has to be loaded, its RK code does not fit there
+				compileExprWithMVPropagation(context, st.Object, &reg, &ac.ec.reg)
 			}
 			ac.keyrk = reg
 			reg += compileExpr(context, reg, st.Key, ecnone(0))
